@@ -10,6 +10,33 @@ NOTE = ('trusted: llsymex IR semantics (validated by native replay of explored p
         'constant-hash stub for RandomState, single thread, opt-level 0 IR; bounds per evidence.coverage.bounds')
 
 CLAIMED = {
+    'C01': ('4.C01 / 9', 'for each construction shape (structure concrete; range end points, characters, loop bounds symbolic) every feasible path of the real '
+            'constructors + str_in_re is explored and membership / nullable compared with a branch-free transcription of the SMT-LIB denotation on strings '
+            'of bounded length with symbolic characters; ReManager API and re_* wrappers'),
+    'C02': ('4.C02 / 9', 'compile/try_compile per shape: bounded language equality, totality of next for a symbolic character in every state, and the '
+            'inductive step delta(state_i, c) = state of char_derivative(term_i, c) with states = derivative closure in BFS order, which with C03 gives '
+            'acceptance = membership for strings of any length inside the shape space'),
+    'C03': ('4.C03 / 9', 'char_derivative is the left quotient (oracle on c.w), class_derivative is the quotient for a symbolic member of every class, classes '
+            'cover the alphabet, set_derivative Ok/Err classification and value for a symbolic set and member, BadClassId for symbolic invalid ids'),
+    'C04': ('4.C04 / 9', 'Hopcroft refine on every complete transition table up to 4 states (all successors and final flags symbolic) against Moore '
+            'distinguishability; Automaton::minimize on builder-made automata with symbolic labels/targets: bisimulation of initial states on the union '
+            'automaton (language equality for all lengths on the path), pairwise distinguishable result, Nerode count; compiled automata via C02'),
+    'C05': ('4.C05 / 9', 'is_empty_re vs get_string agreement, witness well-formed and accepted by membership test, oracle and compiled automaton; emptiness '
+            'implies no member among bounded symbolic strings and no nullable derivative'),
+    'C07': ('4.C07 / 9', 'rebuild of a construction after histories chosen by symbolic selectors (all interleavings of an 8-entry menu up to the bound) gives the '
+            'pointer-identical term; == iff identity; complement involution without fixed point; language independent of history; thread-local manager variant'),
+    'C10': ('4.C10 / 9', 'str_replace_re / str_replace_re_all through the thread-local manager against the SMT-LIB leftmost-shortest definition written as a '
+            'boolean formula over all concrete match positions of a symbolic subject string'),
+    'C13': ('4.C13 / 9', 'arbitrary builder call sequences (symbolic overlapping labels, targets, defaults, final marks) with a free symbolic witness character: Ok '
+            'implies no conflict and no uncovered character, delta/initial/final as specified; complete disjoint specifications are accepted'),
+    'C14': ('4.C14 / 9', 'builder-made automata with symbolic labels and targets: reachability fixpoint vs remove_unreachable_states (bisimulation + order), combined '
+            'partition uniformity for symbolic x,y, alphabet picks, compile_successors table = next for every state/index, iterators and counters; '
+            'CompactTableBuilder with a symbolic choice of non-default cells'),
+    'C16': ('4.C16 / 9', 'for ordered pairs of shapes, included_in = true implies sem(r,w) => sem(s,w) for symbolic w up to the bound; unions of the pair keep every member'),
+    'C18': ('4.C18 / 9', 'start_char for a symbolic character against emptiness of the derivative and against the oracle in both directions; start_class per class with '
+            'a symbolic member; BadClassId'),
+    'C19': ('4.C19 / 9', 'iter_derivatives: e first, pairwise distinct, closed under char_derivative for a symbolic character; try_compile with a symbolic bound returns '
+            'Some exactly when the closure fits; compile has as many states'),
     'C06': ('4.C06', 'every str_* search/substring/replace function explored on all paths for every length combination within the bound, all '
             'characters and all i32 arguments symbolic, against branch-free transcriptions of the SMT-LIB 2.6 definitions'),
     'C08': ('4.C08', 'parse_smt_literal on all texts of up to 4/5 symbolic ASCII bytes plus escape templates against an independent grammar-level '
